@@ -162,7 +162,7 @@ func TestC11(t *testing.T) {
 		case 1:
 			s = gen.Mutate(rt, rapid.SampledFrom(vec).Draw(rt, "vec"), gen.FragHTML)
 		case 2:
-			s = gen.Mutate(rt, rapid.SampledFrom(corpus.HTML).Draw(rt, "fix"), gen.FragHTML)
+			s = gen.Mutate(rt, rapid.SampledFrom(corp().HTML).Draw(rt, "fix"), gen.FragHTML)
 		default:
 			s = g.Draw(rt, "s")
 		}
